@@ -203,6 +203,8 @@ impl TopicCleanTracker {
         thread::spawn(move || {
             let mut pending = HashSet::new();
             loop {
+                #[cfg(walrus_verif)]
+                crate::wal::verif_hooks::marker_persister_tick();
                 match rx.recv_timeout(Duration::from_millis(5)) {
                     Ok(topic) => {
                         pending.insert(topic);
